@@ -311,6 +311,8 @@ func (t *basicTaskBase) Transition(cmd *executorcmd.ExecutorCommand_Transition) 
 
 func (t *basicTaskBase) Kill() error {
 	if t.taskCmd != nil {
+		// a basic task which is still running goes down with its whole process group (noop for hooks)
+		_ = t.ensureBasicTaskKilled()
 		t.taskCmd = nil
 	}
 
